@@ -920,14 +920,14 @@ func deriveCrowd(rs *RunSpec, b *Bank, r *model.Rng) bool {
 	if len(cand) == 0 {
 		return false
 	}
-	rs.Tasks = 70 + r.Intn(71)
+	rs.Tasks = 130 + r.Intn(91)
 	rs.Rounds = 1
 	rs.Sched.Strategy, rs.Sched.Den, rs.Sched.PCTDepth = "uniform", []int{2, 2, 8}[r.Intn(3)], 0
 	rs.Sched.StartAt = make([]int64, rs.Tasks)
 	var pool []uint64
 	for k := 1 + r.Intn(3); k > 0; k-- {
 		idx := cand[r.Intn(len(cand))]
-		for _, v := range []uint64{0, 1, 4, 6, 8, 2} { // the healthy decodes of the definition, and an encode
+		for _, v := range []uint64{0, 1, 4, 6, 8} { // the healthy decodes of the definition
 			pool = append(pool, FocusBase+uint64(idx)*FocusVariants+v)
 		}
 	}
